@@ -566,9 +566,18 @@ func (t *Miner) downloadMissBlock(ctx xctx.XContext,
 
 		block, _ := ledger.GetPendingBlock(beginBlock.PreHash)
 		if block != nil {
-			beginBlock = block
-			blkIds = append(blkIds, block.GetBlockid())
-			continue
+			// the pending table is keyed by block id and survives restarts. A copy that
+			// batchConfirmBlock is going to refuse - a peer's forged answer (another body under
+			// this id, or a height field that lies: the id does not cover it), saved before it
+			// was refused - must not stand in for the block for ever: every later sync of this
+			// branch would pick it up here and fail again. Only a copy that verifies and sits
+			// one below its child is taken; otherwise the block is fetched again (and the saved
+			// copy overwritten).
+			if valid, _ := ledger.VerifyBlock(block, ctx.GetLog().GetLogId()); valid && block.Height+1 == beginBlock.Height {
+				beginBlock = block
+				blkIds = append(blkIds, block.GetBlockid())
+				continue
+			}
 		}
 
 		// 从临近节点下载区块
